@@ -19,6 +19,11 @@ def obligations(tier):
         for p in range(48):
             obs.append(Ob(f"C13.select.2sec.name{p}", "CH", "harness.h_chart", "route", 1500, {"VF_NSEC": 2, "VF_NPARTS": 48, "VF_PART": p},
                           funcs=(CH_ + "Chart.from_file",), bounds="two sections, 2^3+1 selection classes, all 48 names"))
+    for nm in ([3] if tier == "quick" else [3, 4]):
+        obs.append(Ob(f"C13.route_multi.{nm}", "CH", "harness.h_chart", "route_multi", 1500, {"VF_NMULTI": nm}, funcs=(CH_ + "Chart.from_file",),
+                      bounds=f"{nm} instrument sections, all 2^{nm}+1 selections, every relative order"))
+    obs.append(Ob("C13.framing", "CH", "harness.h_chart", "framing", 300, funcs=(CH_ + "Chart._partition_lines_by_data_section",),
+                  bounds="symbolic body lines of any content (header-like lines included) stay inside their own section"))
     obs.append(Ob("C13.real_parsers", "CH", "harness.h_chart", "select_real", 900, funcs=(CH_ + "Chart.from_file", "chartparse.instrument.InstrumentTrack.from_chart_lines"),
                   bounds="real parsers: selected parse equals the unrestricted parse restricted; an invalid unselected section is never parsed"))
     return obs
